@@ -35,6 +35,9 @@ type Sc struct {
 	QErr    string   `json:"qerr"`
 	Known   bool     `json:"known"`
 	UQ      string   `json:"uq"`
+	// invite: the request carries invite_room_state ("given") or not ("none")
+	Stripped string `json:"stripped"`
+	Fam      string `json:"fam,omitempty"`
 }
 
 type server struct {
